@@ -833,6 +833,71 @@ class Inliner:
             self.rewrite_block_owner(holder, fi, names | _all_names(holder), depth + 1)
         return holder.body
 
+    def _new_class_of(self, e, fi):
+        """The new (w.r.t. the inventory) class of the module that expression `e` constructs (`C(...)`), or that the local
+        `e` is bound to by its only binding in the host (`g = C(...)`)."""
+        inv = load_inventory()
+        known_c = set(inv.get("classes") or [])
+        call = e if isinstance(e, ast.Call) else None
+        if isinstance(e, ast.Name):
+            top = fi
+            while top.parent is not None:
+                top = top.parent
+            binds = [n for n in ast.walk(top.node) if isinstance(n, ast.Assign) and any(isinstance(t, ast.Name) and t.id == e.id for t in n.targets)]
+            stores = [n for n in ast.walk(top.node) if isinstance(n, ast.Name) and n.id == e.id and isinstance(n.ctx, ast.Store)]
+            if len(binds) == 1 and len(stores) == 1 and isinstance(binds[0].value, ast.Call):
+                call = binds[0].value
+        if call is None or not isinstance(call.func, ast.Name):
+            return None
+        for c in self.repo.classes_named(call.func.id):
+            if c.qual not in known_c and c.module is fi.module:
+                return c
+        return None
+
+    def _with_protocol(self, w: ast.With, fi, names, depth):
+        """`with X [as v]: BODY`, X an instance of a new class with __enter__ and __exit__  ->
+               [x__k = X]; v = x__k.__enter__()
+               try: BODY
+               except BaseException as e__k:
+                   if not x__k.__exit__(type(e__k), e__k, e__k.__traceback__): raise
+               else: x__k.__exit__(None, None, None)
+        (the definition of the statement); the two method calls are then ordinary calls of new helpers."""
+        ce = w.items[0].context_expr
+        cls = self._new_class_of(ce, fi)
+        if cls is None or not {"__enter__", "__exit__"} <= set(cls.methods):
+            return None
+        self.counter += 1
+        k = self.counter
+        pre = []
+        if isinstance(ce, ast.Name):
+            inst = ce.id
+        else:
+            inst = "cm__w%d" % k
+            pre.append(ast.copy_location(ast.Assign(targets=[ast.Name(id=inst, ctx=ast.Store())], value=ce), w))
+
+        def call(m, args):
+            return ast.Call(func=ast.Attribute(value=ast.Name(id=inst, ctx=ast.Load()), attr=m, ctx=ast.Load()), args=args, keywords=[])
+        ev = "exc__w%d" % k
+        as_var = w.items[0].optional_vars
+        ent = call("__enter__", [])
+        enter_st = ast.Assign(targets=[as_var], value=ent) if as_var is not None else ast.Expr(value=ent)
+        exc_args = [ast.Call(func=ast.Name(id="type", ctx=ast.Load()), args=[ast.Name(id=ev, ctx=ast.Load())], keywords=[]),
+                    ast.Name(id=ev, ctx=ast.Load()),
+                    ast.Attribute(value=ast.Name(id=ev, ctx=ast.Load()), attr="__traceback__", ctx=ast.Load())]
+        handler = ast.ExceptHandler(type=ast.Name(id="BaseException", ctx=ast.Load()), name=ev,
+                                    body=[ast.If(test=ast.UnaryOp(op=ast.Not(), operand=call("__exit__", exc_args)), body=[ast.Raise(exc=None, cause=None)], orelse=[])])
+        none3 = [ast.Constant(value=None), ast.Constant(value=None), ast.Constant(value=None)]
+        tr = ast.Try(body=list(w.body), handlers=[handler], orelse=[ast.Expr(value=call("__exit__", none3))], finalbody=[])
+        out = pre + [enter_st, tr]
+        for x in out:
+            ast.copy_location(x, w)
+            ast.fix_missing_locations(x)
+        self.cm_classes = getattr(self, "cm_classes", []) + [cls.qual]
+        holder = ast.Module(body=out, type_ignores=[])
+        if depth < MAX_DEPTH:
+            self.rewrite_block_owner(holder, fi, names | _all_names(holder), depth + 1)
+        return holder.body
+
     def _site(self, callee, ok, why=""):
         d = self.inlined_sites if ok else self.left_sites
         d[callee.qual] = d.get(callee.qual, 0) + 1
@@ -848,6 +913,12 @@ class Inliner:
         # with <new context-manager CLASS>(...) as v:  ->  fields bound, __enter__ body, try: BODY finally: __exit__ body
         if isinstance(s, ast.With) and len(s.items) == 1 and isinstance(s.items[0].context_expr, ast.Call):
             out = self._expand_cm_class(s, fi, names, depth)
+            if out is not None:
+                return out
+        # with <instance of a new class that has __enter__ / __exit__>: the protocol written out, so that the two methods
+        # are inlined like any other new helper (also when __exit__ can suppress the exception)
+        if isinstance(s, ast.With) and len(s.items) == 1:
+            out = self._with_protocol(s, fi, names, depth)
             if out is not None:
                 return out
         # with <new context manager>(...) as v:
@@ -1084,6 +1155,13 @@ def flatten(repo) -> Optional[Inliner]:
         if ast.dump(fi.node) != before:
             ast.fix_missing_locations(fi.node)
             changed_modules.add(fi.module.name)
+    # instances of new classes that never leave the function: their fields become locals
+    for fi in list(repo.all_funcs()):
+        if fi.parent is not None:
+            continue
+        if _scalar_replace(inl, fi):
+            ast.fix_missing_locations(fi.node)
+            changed_modules.add(fi.module.name)
     # helpers whose every call site was inlined disappear from the tables
     dropped = []
     for fi in inl.new:
@@ -1119,6 +1197,102 @@ def flatten(repo) -> Optional[Inliner]:
         repo.modules[name].reindex()
     repo.refresh_class_index()
     return inl
+
+
+def _scalar_replace(inl, fi) -> bool:
+    """`g = C(a, b)` with C a class that is new w.r.t. the inventory, whose __init__ only stores its fields, and g used in
+    this function only as `g.<field>` (read or written; every method call on it was written out already): the object never
+    leaves the function, so each field is a local - `g.f` becomes `f__oK`, the construction becomes the field
+    initialisations (class-level constants first, then the __init__ stores with the arguments bound)."""
+    changed = False
+    fn = fi.node
+    binds = {}
+    for n in ast.walk(fn):
+        if isinstance(n, ast.Assign) and len(n.targets) == 1 and isinstance(n.targets[0], ast.Name) and isinstance(n.value, ast.Call):
+            binds.setdefault(n.targets[0].id, []).append(n)
+    for name, bs in binds.items():
+        if len(bs) != 1:
+            continue
+        cls = inl._new_class_of(bs[0].value, fi)
+        if cls is None:
+            continue
+        call = bs[0].value
+        stores = [x for x in ast.walk(fn) if isinstance(x, ast.Name) and x.id == name and isinstance(x.ctx, (ast.Store, ast.Del))]
+        if len(stores) != 1:
+            continue
+        # fields: class-level constant attributes and the plain stores of __init__
+        fields = {}
+        for st in cls.node.body:
+            if isinstance(st, (ast.Assign, ast.AnnAssign)) and getattr(st, "value", None) is not None and isinstance(st.value, ast.Constant):
+                for t in (st.targets if isinstance(st, ast.Assign) else [st.target]):
+                    if isinstance(t, ast.Name):
+                        fields[t.id] = st.value
+        init = cls.methods.get("__init__")
+        inits = []
+        ok = True
+        if init is not None:
+            prm = _params(init.node)
+            if prm is None or any(isinstance(a, ast.Starred) for a in call.args) or any(k.arg is None for k in call.keywords):
+                continue
+            pos, kwo, defaults = prm
+            pos = pos[1:]
+            if len(call.args) > len(pos):
+                continue
+            binding = dict(zip(pos, call.args))
+            for k in call.keywords:
+                binding[k.arg] = k.value
+            for p_ in pos + kwo:
+                if p_ not in binding:
+                    if p_ not in defaults or not _immutable_default(defaults[p_]):
+                        ok = False
+                        break
+                    binding[p_] = defaults[p_]
+            if not ok or not all(_is_pure_arg(a) for a in binding.values()):
+                continue
+            for st in _strip_doc_local(init.node.body):
+                if isinstance(st, ast.Assign) and len(st.targets) == 1 and isinstance(st.targets[0], ast.Attribute) \
+                        and isinstance(st.targets[0].value, ast.Name) and st.targets[0].value.id == "self":
+                    inits.append((st.targets[0].attr, _Subst({}, dict(binding)).visit(copy.deepcopy(st.value))))
+                elif isinstance(st, (ast.Pass,)) or (isinstance(st, ast.Expr) and isinstance(st.value, ast.Call) and ast.unparse(st.value).startswith("super().__init__")):
+                    continue
+                else:
+                    ok = False
+                    break
+            if not ok or any(isinstance(x, ast.Name) and x.id == "self" for (_f, v) in inits for x in ast.walk(v)):
+                continue
+        elif call.args or call.keywords:
+            continue
+        all_fields = set(fields) | {f for (f, _v) in inits}
+        # every other mention of the name is `name.<field>` and no method of the class is called on it any more
+        uses = [x for x in ast.walk(fn) if isinstance(x, ast.Name) and x.id == name and isinstance(x.ctx, ast.Load)]
+        attr_of = {id(a.value): a for a in ast.walk(fn) if isinstance(a, ast.Attribute) and isinstance(a.value, ast.Name) and a.value.id == name}
+        if not uses or not all(id(u) in attr_of and attr_of[id(u)].attr in all_fields and attr_of[id(u)].attr not in cls.methods for u in uses):
+            continue
+        # a nested function that reads the instance would capture it: leave such objects alone
+        if any(isinstance(x, ast.Name) and x.id == name for n_ in ast.walk(fn) if isinstance(n_, FUNC + (ast.Lambda,)) and n_ is not fn for x in ast.walk(n_)):
+            continue
+        inl.counter += 1
+        tag = "__o%d" % inl.counter
+        loc = {f: f.lstrip("_") + tag for f in all_fields}
+
+        class R(ast.NodeTransformer):
+            def visit_Attribute(self_, a):
+                self_.generic_visit(a)
+                if isinstance(a.value, ast.Name) and a.value.id == name and a.attr in loc:
+                    return ast.copy_location(ast.Name(id=loc[a.attr], ctx=a.ctx), a)
+                return a
+        R().visit(fn)
+        new_stmts = [ast.copy_location(ast.Assign(targets=[ast.Name(id=loc[f], ctx=ast.Store())], value=copy.deepcopy(v)), bs[0]) for f, v in fields.items()]
+        new_stmts += [ast.copy_location(ast.Assign(targets=[ast.Name(id=loc[f], ctx=ast.Store())], value=v), bs[0]) for (f, v) in inits]
+        for holder in ast.walk(fn):
+            for fld in ("body", "orelse", "finalbody"):
+                blk = getattr(holder, fld, None)
+                if isinstance(blk, list) and bs[0] in blk:
+                    i = blk.index(bs[0])
+                    blk[i:i + 1] = new_stmts or [ast.copy_location(ast.Pass(), bs[0])]
+        inl.log.append("%s: instance `%s` of %s replaced by its fields" % (fi.qual, name, cls.qual))
+        changed = True
+    return changed
 
 
 def _still_called(repo, fi) -> bool:
